@@ -67,9 +67,17 @@ Definition spec_plan (R : reftable) (op : Z) : plan :=
 (* ---- tables and the meaning of a plan ---- *)
 Record tabs := { tb_consts : list Z; tb_names : list Z; tb_vars : list Z; tb_cells : list Z; tb_frees : list Z; tb_ncmp : Z }.
 
-(* xdis: varnames + [c for c in cellvars + freevars if c not in varnames] *)
+(* xdis (CellNames carries the number of cells): varnames + [c for i, c in enumerate(cellvars + freevars) if i >= n_cellvars or c not in varnames] *)
+Fixpoint model_merge (vars : list Z) (n_cells : nat) (l : list Z) : list Z :=
+  match l with
+  | [] => []
+  | c :: l' => match n_cells with
+               | O => c :: model_merge vars O l'
+               | S n => if zmem c vars then model_merge vars n l' else c :: model_merge vars n l'
+               end
+  end.
 Definition model_localsplus (tb : tabs) : list Z :=
-  tb_vars tb ++ filter (fun c => negb (zmem c (tb_vars tb))) (tb_cells tb ++ tb_frees tb).
+  tb_vars tb ++ model_merge (tb_vars tb) (List.length (tb_cells tb)) (tb_cells tb ++ tb_frees tb).
 (* CPython 3.11+: locals, then the cells that are not already locals, then the free variables *)
 Definition spec_localsplus (tb : tabs) : list Z :=
   tb_vars tb ++ filter (fun c => negb (zmem c (tb_vars tb))) (tb_cells tb) ++ tb_frees tb.
